@@ -45,7 +45,7 @@ fuzz_target!(|data: &[u8]| {
         panic!("VERIF-PANIC lexer {} input {:?} script {:?}: {}", idx, case.input, case.script, p);
     }
     let nchars = case.input.chars().count();
-    if got.a.runaway || got.a.items.len() > nchars + 1 || got.a.log.len() > nchars + 1 || got.a.after_none > 0 {
+    if got.a.runaway || got.a.items.len() > nchars + 1 || got.a.log.iter().filter(|e| e.rule & proto::POST_RESET == 0).count() > nchars + 1 || got.a.after_none > 0 {
         panic!("VERIF-BOUNDS lexer {} input {:?} script {:?}: {}", idx, case.input, case.script, fmt_run(&got.a));
     }
     if bounds_only {
